@@ -1645,9 +1645,57 @@ static void vf_init(void)
 }
 static uint64_t vf_ncases(int tier) { (void)tier; return nplan; }
 
+/* A recursive filter whose OUTPUT leaves the finite range while every input is finite, continued for a few steps: the difference equation does not stop applying
+   there. From the first non-finite output on, the sum evaluated in double over the inputs and the library's OWN returned outputs is +-inf or NaN whichever way it is
+   summed (a finite coefficient times inf is inf or NaN); the library's output must then be non-finite as well - a finite value means the recurrence was not applied
+   to the returned outputs (seeded change C16-N: the output line is zeroed when its newest entry is inf, "so that one overflow does not latch the filter"). Before the
+   overflow every step is judged by the one-step bound on the library's own history as everywhere else. */
+static void tf_overflow_case(vf_rng *r)
+{
+    unsigned const nn = 1 + (unsigned)vf_below(r, 3), nd = 1 + (unsigned)vf_below(r, 3);
+    double num[3], den[3], xin[1400], yl[1400];
+    double *in = (double *)malloc(nn * sizeof(double)), *out = (double *)malloc(nd * sizeof(double));
+    double *cn = (double *)malloc(nn * sizeof(double)), *cd = (double *)malloc(nd * sizeof(double));
+    a_tf ctx;
+    unsigned k, first = 0, L = 1400, after = 0;
+    int seen = 0;
+    for (k = 0; k < nn; ++k) { cn[k] = num[k] = (double)vf_range(r, 1, 4) * vf_sign(r); }
+    for (k = 0; k < nd; ++k) { cd[k] = den[k] = k == 0 ? -vf_uniform(r, 2, 4) : vf_uniform(r, -0.25, 0.25); } /* growth by about |den[0]| per step */
+    a_tf_init(&ctx, nn, cn, in, nd, cd, out);
+    vf_log("recursive filter driven until its output overflows: num_n=%u den_n=%u den[0]=%a, inputs small integers", nn, nd, den[0]);
+    for (k = 0; k < L; ++k)
+    {
+        double fwd = 0, rev = 0;
+        unsigned i;
+        xin[k] = (double)vf_range(r, 1, 9);
+        yl[k] = a_tf_iter(&ctx, xin[k]);
+        for (i = 0; i < nn; ++i) { if (i <= k) { fwd += num[i] * xin[k - i]; } }
+        for (i = 0; i < nd; ++i) { if (i < k) { fwd -= den[i] * yl[k - 1 - i]; } }
+        for (i = nd; i-- > 0;) { if (i < k) { rev -= den[i] * yl[k - 1 - i]; } }
+        for (i = nn; i-- > 0;) { if (i <= k) { rev += num[i] * xin[k - i]; } }
+        if (seen || !isfinite(fwd) || !isfinite(rev))
+        {
+            ++vf.evals;
+            VF_COUNT("tf-history-continued-after-output-overflow");
+            if (!isfinite(fwd) && !isfinite(rev) && isfinite(yl[k]))
+            {
+                vf_viol("tf_iter/finite-output-from-a-non-finite-history", "num_n=%u den_n=%u den[0]=%a: step %u returned %.17g although the outputs returned before it are %.17g, %.17g: the difference equation over the returned outputs is not finite (%g / %g)",
+                        nn, nd, den[0], k, yl[k], yl[k - 1], k > 1 ? yl[k - 2] : 0.0, fwd, rev);
+                break;
+            }
+        }
+        if (!seen && !isfinite(yl[k])) { seen = 1; first = k; }
+        if (seen && ++after > 8) { break; }
+    }
+    if (!seen) { VF_COUNT("tf-overflow-history-did-not-overflow"); }
+    (void)first;
+    free(in); free(out); free(cn); free(cd);
+}
+
 static void vf_case(uint64_t c, vf_rng *r)
 {
     plan_t p = plan[c];
+    if (c % 16 == 5) { vf_rng orr; vf_rng_seed(&orr, vf.seed, vf_hash_str("C16-overflow"), c); tf_overflow_case(&orr); }
     unsigned nn = p.arg / 9, nd = p.arg % 9;
     switch (p.kind)
     {
